@@ -87,6 +87,24 @@ def oracle(ctx, mds, docs, per_doc_cfgs=2):
             ctx.fail("none-vs-empty", "config %s: md(None) != md('')" % nm, {"config": nm, "s": None})
         if nm in ("core", "preset", "all", "core-noescape") and b != "":
             ctx.fail("empty-not-empty", "config %s: md('') = %r, expected ''" % (nm, b), {"config": nm, "s": ""})
+    # the other documented entry points: mistune.html, mistune.markdown(…) with its argument combinations (twice: the second call
+    # is served by the converter cache)
+    import mistune
+    entry = [("mistune.html", lambda x: mistune.html(x))]
+    for kw in ({}, {"escape": False}, {"renderer": "ast"}, {"plugins": ["table", "footnotes"]}, {"escape": False, "plugins": ["strikethrough"]}, {"renderer": None}):
+        entry.append(("mistune.markdown(**%r)" % (kw,), lambda x, kw=kw: mistune.markdown(x, **kw)))
+        entry.append(("mistune.markdown(**%r) again" % (kw,), lambda x, kw=kw: mistune.markdown(x, **kw)))
+    # (Markdown.parse takes a str: None is handled by __call__ and markdown(), which is what "converted" means)
+    for nm, f in entry:
+        n += 1
+        try:
+            a, b = f(None), f("")
+        except Exception as e:
+            ctx.fail("none-vs-empty:api", "%s raises %r for None or ''" % (nm, e), {"config": nm, "s": None}); continue
+        if a != b:
+            ctx.fail("none-vs-empty:api", "%s: None gives %r, '' gives %r" % (nm, a, b), {"config": nm, "s": None})
+        elif isinstance(b, str) and b != "":
+            ctx.fail("empty-not-empty:api", "%s: '' gives %r, expected empty HTML" % (nm, b), {"config": nm, "s": ""})
     return n
 
 
